@@ -37,7 +37,8 @@ HASHY = frozenset(["collect_set", "eiter", "emap", "eset", "collect_map", "empty
 SENSITIVE = frozenset(["index", "first_val", "last_val", "find_val", "position_val", "upd_first", "fold", "foldgen", "fold_last",
                        "foldres", "first_err", "loop_pick", "skip", "take", "subrange", "slice_from", "enumerate", "setidx",
                        "havoc", "unsupported"])
-COMMUTATIVE = frozenset(["add-recurrence", "becomes-present", "keyed-accumulation", "empty-or-sum", "record-fields", "option-sum"])
+COMMUTATIVE = frozenset(["add-recurrence", "becomes-present", "keyed-accumulation", "empty-or-sum", "record-fields", "option-sum",
+                         "max-recurrence", "min-recurrence", "stays-true"])
 
 
 class Order(object):
@@ -385,7 +386,7 @@ def run(ctx, rep):
                     "parsers": nparse}
     rep.analysed["unrolled_hash_loops"] = nunrolled
     rep.floor("loops", nloops, 8)
-    rep.floor("unrolled-hash-loops", nunrolled, 150)
+    rep.floor("unrolled-hash-loops", nunrolled, 20)
     rep.floor("id-uses", nids, 20)
     rep.floor("parsers", nparse, 4)
     rep.analysed["line_reductions"] = nadd
@@ -667,7 +668,7 @@ def h2b(ctx, rep, entries):
         for (fn, name), (L, f, rv) in sorted(bad.items()):
             rep.violated("C10/H2b/%s/%s/%s" % (ename, fn, name),
                          "a loop over a hash map / set gives the same state whatever the iteration order",
-                         construct=short(L["loc"]),
+                         construct=short(L["loc"]) if L.get("loc") else where,
                          why="variable `%s` after the loop differs between forward and reverse order: %s  vs  %s"
                              % (name, tm.show(f, 3)[:200], tm.show(rv, 3)[:200]))
         if not bad:
